@@ -2362,13 +2362,22 @@ impl RaftNode {
             if log_ok {
                 success = self.append_leader_entries(&ae.entries, &mut persistent);
 
-                match_index = persistent.array_len_as_log_index();
+                // Only the prefix verified against this leader may be acknowledged or
+                // committed: entries beyond it can be stale leftovers from an older term.
+                let last_new_index = ae
+                    .entries
+                    .last()
+                    .map_or(ae.prev_log_index, |e| e.index)
+                    .min(persistent.array_len_as_log_index());
+                match_index = last_new_index;
 
                 // Update commit index
                 let mut volatile = self.volatile.write();
                 if ae.leader_commit > volatile.commit_index {
-                    volatile.commit_index =
-                        ae.leader_commit.min(persistent.array_len_as_log_index());
+                    volatile.commit_index = ae
+                        .leader_commit
+                        .min(last_new_index)
+                        .max(volatile.commit_index);
                 }
             }
         }
